@@ -5,6 +5,8 @@
 pub mod vnd;
 pub mod h_ser;
 pub mod h_match;
+pub mod sc;
+pub mod h_fsm;
 
 pub use vnd::*;
 
@@ -12,5 +14,6 @@ pub use vnd::*;
 pub fn run_harness(name: &str) -> bool {
     if h_ser::run(name) { return true; }
     if h_match::run(name) { return true; }
+    if h_fsm::run(name) { return true; }
     false
 }
